@@ -198,12 +198,22 @@ class Model:
         """A violated lambda condition is evaluated once more to build its message (default and class errors)."""
         return c.get("form") == "lambda" and c.get("err", "default") in ("default", "class")
 
-    def _violate(self, exp: Expected, c: Dict[str, Any], kind: str) -> None:
+    def _violate(self, exp: Expected, c: Dict[str, Any], kind: str, discarded: bool = False) -> None:
+        """Events of building the error of a falsy contract.
+
+        The re-evaluation of a lambda is allowed, not required ("at most once more"). When the failing precondition
+        group is followed by a group that holds, the error is built for nothing: the statement neither requires nor
+        forbids that, so those events are optional as well.
+        """
         if self._reeval(c):
-            exp.events.append((kind, c["id"]))
+            exp.events.append((kind, c["id"], "opt"))
         if c.get("err") == "factory":
-            exp.events.append(("error", c["id"]))
-        exp.outcome = ("violation", c["id"])
+            if discarded:
+                exp.events.append(("error", c["id"], "opt"))
+            else:
+                exp.events.append(("error", c["id"]))
+        if not discarded:
+            exp.outcome = ("violation", c["id"])
 
     def expect_contracts(
         self,
@@ -221,6 +231,8 @@ class Model:
         is_async = member.get("async", False)
         last_fail = None  # type: Optional[Dict[str, Any]]
         for group in pre:
+            if last_fail is not None:
+                self._violate(exp, last_fail, "cond", discarded=True)
             last_fail = None
             for c in group:
                 if not is_async and c.get("form") in ("adef", "aw"):
